@@ -119,6 +119,11 @@ long _ZNSt6chrono3_V212system_clock3nowEv(void) {
 /* native counterpart of the timed-wait hook (rt.h vf_cwait_arm); notifications are seen by interposing pthread_cond_broadcast / pthread_cond_signal */
 static rt_inject_fn *cwait_f; static int cond_notified;
 void vf_cwait_arm(rt_inject_fn *fn) { cwait_f = fn; }
+/* pre-park hook: exists in the runtime model (rt.h) only; the g++ build just links */
+#ifndef VF_TRANSLATED
+void vf_prepark_arm(rt_inject_fn *fn) { (void)fn; }
+int vf_prepark_pending(void) { return 0; }
+#endif
 int vf_cwait_pending(void) { return cwait_f != 0; }
 void vf_cwait_disarm(void) { cwait_f = 0; }
 int pthread_cond_broadcast(pthread_cond_t *c) {
